@@ -170,3 +170,112 @@ def run(ctx):
         mod = importlib.import_module("props." + name)
         col = Collector(ctx, mcap, "msan", False)
         mod.run(col)
+    cli_stream(ctx)
+
+
+# ---------------------------------------------------------------------------------------------------------------
+# command line tools: every option combination on generated files must end with an exit status (no signal, no
+# sanitizer report, no failed assertion) — src/main/*.c built against the dbg library
+
+CLI = {
+    "cmr-tu": (["", "--algo eulerian", "--algo partition", "--no-direct-graphic", "--no-series-parallel",
+                "--no-direct-graphic --no-series-parallel", "--no-planarity", "--decompose DP", "--decompose YP",
+                "--decompose P3", "--decompose Y3", "--naive-submatrix", "--stats", "--time-limit 100"],
+               ["", "-D @out", "-N @out", "-D @out -N @out2"], "ternary"),
+    "cmr-regular": (["", "--no-direct-graphic", "--no-series-parallel", "--no-direct-graphic --no-series-parallel",
+                     "--decompose DP", "--decompose YP", "--decompose Y3", "--stats"], ["", "-D @out", "-N @out"], "binary"),
+    "cmr-graphic": (["", "-t", "--stats"], ["", "-G @out", "-G @out -T @out2", "-G @out -D @out2"], "binary"),
+    "cmr-network": (["", "-t", "--stats"], ["", "-G @out", "-G @out -T @out2", "-N @out", "-G @out -D @out2"], "ternary"),
+    "cmr-series-parallel": (["", "-b", "--stats"], ["", "-S @out", "-R @out", "-N @out", "-S @out -R @out2"], "ternary"),
+    "cmr-camion": (["", "--stats"], ["", "-N @out", "-o sparse"], "ternary"),
+    "cmr-ctu": (["", "--stats"], ["", "-n @out", "-N @out", "-r 1", "-c 1", "-r 1 -c 1"], "binary"),
+    "cmr-balanced": (["", "--algorithm submatrix", "--algorithm graph", "--no-series-parallel", "--stats"], ["", "-N @out"], "ternary"),
+    "cmr-equimodular": (["", "-t", "-s", "-u", "-s -u", "--stats"], [""], "integer"),
+    "cmr-k-ary": (["-b", "-t", "-I", "-b --stats"], [""], "integer"),
+    "cmr-matrix": (["", "-t", "-c", "-C", "-o sparse", "-t -c", "-d"], [""], "integer"),
+}
+
+
+def cli_stream(ctx):
+    import subprocess, tempfile, shutil
+    from concurrent.futures import ThreadPoolExecutor
+    tools = vlib.build_tools("dbg")
+    rng = ctx.rng.fork("cli")
+    work = os.path.join(vlib.WORK, "cli-%d" % os.getpid())
+    shutil.rmtree(work, ignore_errors=True)
+    os.makedirs(work)
+    import gen
+    nfiles = 12 if ctx.quick else 120
+    files = {"binary": [], "ternary": [], "integer": []}
+    for kind, alpha in (("binary", (0, 1)), ("ternary", (-1, 0, 1)), ("integer", (-3, -2, -1, 0, 1, 2, 3))):
+        for i in range(nfiles):
+            if kind != "integer" and i % 3 == 0:
+                M = gen.structured(rng, 6, kind == "ternary")
+            else:
+                m, n = 1 + rng.below(6), 1 + rng.below(6)
+                M = vlib.rand_matrix(rng, m, n, alpha, 3 + rng.below(6), 10)
+            if not M or not M[0]:
+                M = [[1]]
+            m, n = len(M), len(M[0])
+            dense = os.path.join(work, "%s%d.dense" % (kind, i))
+            open(dense, "w").write("%d %d\n" % (m, n) + "\n".join(" ".join(str(x) for x in r) for r in M) + "\n")
+            sparse = os.path.join(work, "%s%d.sparse" % (kind, i))
+            nz = [(r + 1, c + 1, M[r][c]) for r in range(m) for c in range(n) if M[r][c]]
+            open(sparse, "w").write("%d %d %d\n" % (m, n, len(nz)) + "".join("%d %d %d\n" % t for t in nz))
+            files[kind].append((dense, sparse))
+    jobs = []
+    for tool, (opts, outs, kind) in CLI.items():
+        if tool not in tools:
+            continue
+        for fi, (dense, sparse) in enumerate(files[kind]):
+            for oi_, o in enumerate(opts):
+                for ui, u in enumerate(outs):
+                    if (fi + oi_ + ui) % (1 if not ctx.quick else 2) != 0 and o and u:
+                        continue
+                    fmt_sparse = (fi + oi_) % 3 == 0
+                    src = sparse if fmt_sparse else dense
+                    tag = "%s-%d-%d-%d" % (tool, fi, oi_, ui)
+                    out1, out2 = os.path.join(work, tag + ".o1"), os.path.join(work, tag + ".o2")
+                    args = [tools[tool], src] + (["-i", "sparse"] if fmt_sparse else []) + o.split() + \
+                           u.replace("@out2", out2).replace("@out", out1).split()
+                    jobs.append((tool, args))
+    env = dict(os.environ)
+    env["ASAN_OPTIONS"] = "detect_leaks=1"
+    env["LSAN_OPTIONS"] = "exitcode=0"      # the exit status stays the tool's own; leak reports are read from stderr
+    env["UBSAN_OPTIONS"] = "print_stacktrace=1"
+
+    def run(job):
+        tool, args = job
+        try:
+            r = subprocess.run(args, capture_output=True, text=True, env=env, timeout=60)
+            return tool, args, r.returncode, r.stderr[:4000] + ("\n...\n" + r.stderr[-4000:] if len(r.stderr) > 8000 else r.stderr[4000:])
+        except subprocess.TimeoutExpired:
+            return tool, args, -14, "timeout"
+    fam = ctx.families.setdefault("command line tools [dbg]", {"runs": 0, "failures": 0, "exit_codes": {}})
+    with ThreadPoolExecutor(vlib.NCPU) as ex:
+        for tool, args, rc, err in ex.map(run, jobs):
+            fam["runs"] += 1
+            ctx.evaluations += 1
+            fam["exit_codes"][str(rc)] = fam["exit_codes"].get(str(rc), 0) + 1
+            line = " ".join(a.replace(work + "/", "") for a in args[1:])
+            # memory still allocated when a tool gives up with an error status is returned to the system by the exit
+            # itself; only a run that ends with status 0 is required to have released everything
+            gave_up = rc != 0 or re.search(r"(User input error|Error when writing user output|Memory \(re\)allocation failed|"
+                                           r"Invalid input|Time limit exceeded|Integer overflow|Invalid matrix structure|"
+                                           r"Inconsistent input|Invalid parameters|Unknown error) in \S+_main\.c:\d+\.", err)
+            if gave_up and "LeakSanitizer" in err and not re.search(r"AddressSanitizer: (?!.*leak)|runtime error:|Assertion `", err):
+                err = ""
+            bad = rc < 0 or re.search(r"Sanitizer|runtime error:|Assertion `", err)
+            ctx.nontrivial.add(hashlib.md5((tool + line).encode()).digest()[:8])
+            if bad:
+                fam["failures"] += 1
+                key = crash_key(rc, err)
+                if "LeakSanitizer" in err and "leak" not in key:
+                    key = leak_key(err)
+                inp = open(args[1]).read()
+                ctx.violate("cli:%s|%s" % (tool, key), "%s %s ended abnormally (exit %s): %s" % (tool, line, rc, key),
+                            "cli", "%s %s   <input file: %s>" % (tool, line, inp.replace("\n", " / ")), None, "crash", "dbg", (), err)
+    if jobs:
+        ctx.samples.append({"family": "command line tools", "case": " ".join(a.replace(work + "/", "") for a in jobs[len(jobs) // 2][1][1:]),
+                            "tool": jobs[len(jobs) // 2][0]})
+    shutil.rmtree(work, ignore_errors=True)
